@@ -159,7 +159,8 @@ func concatMaps(ms reflect.Value) (reflect.Value, error) {
 
 		var cv reflect.Value
 
-		if v.Type().Elem().Kind() == reflect.Map {
+		// the generic map rule, unless a concat function has been registered for this (named) map type
+		if v.Type().Elem().Kind() == reflect.Map && GetConcatFunc(v.Type().Elem()) == nil {
 			cv, err = concatMaps(v)
 		} else {
 			cv, err = concatSliceValue(v)
